@@ -40,7 +40,7 @@ MIN_EVENTS = {
 
 BASE = (
     '@charset "utf-8";\n@import "i.css" print, tv;\n@namespace n1 "urn:n1";\n@namespace "urn:d";\n/*c*/\n@variables{v1:red;v2:1px}\n'
-    'n1|a, b > c, *|d[n1|x] {top:0;left:1px !important;color:red;color:green;b\\ottom:2px !important}\n'
+    'n1|a, b > c, *|d[n1|x] {top:0;left:1px !important;color:red;color:green;b\\ottom:2px !IMPORTANT}\n'
     '@media print, screen {m1{top:0} @media tv{m2{left:0}} n1|m3{right:0}}\n'
     '@page :first {margin:1cm; @top-left{content:"x";color:red} @bottom-center{content:"y"}}\n'
     '@font-face{font-family:f1;src:url(f.woff)}\n@unk1 x {y}\n'
@@ -105,7 +105,7 @@ MEDIATYPES = [('tv', 'ok'), ('nosuch', 'early'), ('3d', 'early'), ('', 'early'),
 VALUES = [('2px', 'ok'), ('red', 'ok'), ('1px 2px', 'ok'), (')', 'early'), ('1px )', 'late'), ('1px;2px', 'late'), ('', 'early'), ('1px !important', 'late'), ('calc(1px +', 'late'), ('1px,', 'late'),
           ('url(', 'early'), ('rgb(1,2', 'late'), ('1px {', 'late'), ('"x', 'early'), ('1px /', 'late'), ('f(1 g(2 h(', 'nested')]  # fmt: skip
 NAMES = [('bottom', 'ok'), ('BOTTOM', 'ok'), ('-x-y', 'ok'), ('1a', 'early'), ('', 'early'), ('a b', 'late'), ('a:', 'late'), ('$a', 'early'), ('a;b', 'late'), ('"a"', 'early')]
-PRIOS = [('important', 'ok'), ('!important', 'ok'), ('', 'ok'), ('x', 'early'), ('important x', 'late'), ('! important !', 'late'), ('1', 'early')]
+PRIOS = [('important', 'ok'), ('!important', 'ok'), ('!bogus', 'late'), ('!IMPORTANT', 'ok'), ('! Bogus', 'late'), ('', 'ok'), ('x', 'early'), ('important x', 'late'), ('! important !', 'late'), ('1', 'early')]
 PROPTEXTS = [('bottom:2px', 'ok'), ('bottom:2px !important', 'ok'), ('bottom:)', 'late'), ('bottom', 'late'), (':2px', 'early'), ('bottom:2px !x', 'late'), ('bottom:2px;top:1px', 'late'), ('bottom 2px', 'late'),
              ('$bottom:2px', 'early'), ('bottom:', 'late'), ('bottom:2px !important x', 'late')]  # fmt: skip
 HREFS = [('k.css', 'ok'), ('', 'ok'), ('a b.css', 'ok'), ('bad.css', 'nested'), ('sub/bad2.css', 'nested')]  # (bad*: the fetcher of variant 3 serves a sheet with errors of its own)
@@ -334,6 +334,14 @@ def observe(c, sheet, owner, target):
                             row.append('EXC ' + type(e).__name__)
                     vals.append(row)
     obs['values'] = vals
+    # the spellings the objects remember (names, priorities, at-keywords), as the serializer shows them when asked for the literal forms
+    try:
+        c.ser.prefs.defaultAtKeyword = c.ser.prefs.defaultPropertyName = c.ser.prefs.defaultPropertyPriority = False
+        obs['literal-forms'] = sheet.cssText.decode('utf-8', 'replace')
+    except Exception as e:
+        obs['literal-forms'] = 'EXC ' + type(e).__name__
+    finally:
+        c.ser.prefs.defaultAtKeyword = c.ser.prefs.defaultPropertyName = c.ser.prefs.defaultPropertyPriority = True
     try:
         obs['sheet.variables'] = sorted((k, sheet.variables.getVariableValue(k)) for k in sheet.variables.keys())
     except Exception as e:
